@@ -1627,6 +1627,19 @@ Error X86RAPass::emit_save(RAWorkReg* work_reg, uint32_t src_phys_id) noexcept {
   }
 #endif
 
+  // Only AL|BL|CL|DL are accessible as 8-bit registers in 32-bit mode. Instructions that use a virtual register as
+  // an 8-bit operand restrict its allocation, but between such instructions the register can be held by ESI|EDI|EBP
+  // as well (function arguments, moves caused by other constraints). The home slot of such register only has a single
+  // byte, so it cannot be saved by a wider store - swap the register with EAX temporarily to save it.
+  if (!cc().is_64bit() && work_reg->group() == RegGroup::kGp && src_phys_id >= 4u && src_reg.is_gp8()) {
+    Gp tmp_reg = eax;
+    Gp wide_reg = Gp::make_r32(src_phys_id);
+
+    ASMJIT_PROPAGATE(cc().emit(Inst::kIdXchg, tmp_reg, wide_reg));
+    ASMJIT_PROPAGATE(_emit_helper.emit_reg_move(dst_mem, tmp_reg.r8(), work_reg->type_id(), comment));
+    return cc().emit(Inst::kIdXchg, tmp_reg, wide_reg);
+  }
+
   return _emit_helper.emit_reg_move(dst_mem, src_reg, work_reg->type_id(), comment);
 }
 
